@@ -31,10 +31,13 @@ type counting struct {
 func (c *counting) WriteHeader(code int) { c.wh++; c.ResponseRecorder.WriteHeader(code) }
 
 type Case struct {
-	Kind  string  `json:"kind"`
-	Mode  string  `json:"mode"`
-	Ops   [][]any `json:"ops"`
-	Prios []int   `json:"prios"`
+	Kind    string  `json:"kind"`
+	Mode    string  `json:"mode"`
+	Ops     [][]any `json:"ops"`
+	Prios   []int   `json:"prios"`
+	Mws     []Mw    `json:"mws"`
+	Throw   bool    `json:"throw"`
+	OnError [][]any `json:"onerror"`
 }
 
 type Obs struct {
@@ -100,21 +103,23 @@ func q(s string) string { return strconv.Quote(s) }
 
 // script mode: the same ops as calls on $w inside a handler function, served through the real
 // Handler.ServeHTTP (beginResponse + deferred commitPending)
-func runScript(ops [][]any) (o Obs) {
-	var sb strings.Builder
-	sb.WriteString("function h($r, $w) {\n")
+// opsScript renders ops as method calls on the response variable `v` (e.g. "$w").
+// "*0" ops use the methods' DEFAULT arguments; "badstatus" wraps an out-of-range code in try/catch.
+func opsScript(sb *strings.Builder, v string, ops [][]any) {
 	for _, op := range ops {
 		switch str(op[0]) {
 		case "status":
-			fmt.Fprintf(&sb, "$w->status(%d);\n", num(op[1]))
+			fmt.Fprintf(sb, "%s->status(%d);\n", v, num(op[1]))
 		case "header":
-			fmt.Fprintf(&sb, "$w->header(%s, %s);\n", q(str(op[1])), q(str(op[2])))
+			fmt.Fprintf(sb, "%s->header(%s, %s);\n", v, q(str(op[1])), q(str(op[2])))
 		case "cookie":
-			fmt.Fprintf(&sb, "$w->cookie(%s, %s, []);\n", q(str(op[1])), q(str(op[2])))
+			fmt.Fprintf(sb, "%s->cookie(%s, %s, []);\n", v, q(str(op[1])), q(str(op[2])))
+		case "cookie2":
+			fmt.Fprintf(sb, "%s->cookie(%s, %s);\n", v, q(str(op[1])), q(str(op[2])))
 		case "write":
-			fmt.Fprintf(&sb, "$w->write(%s);\n", q(str(op[1])))
+			fmt.Fprintf(sb, "%s->write(%s);\n", v, q(str(op[1])))
 		case "html":
-			fmt.Fprintf(&sb, "$w->html(%s);\n", q(str(op[1])))
+			fmt.Fprintf(sb, "%s->html(%s);\n", v, q(str(op[1])))
 		case "json":
 			// payload is the JSON text of a list of strings; the script passes the list itself
 			// (json()'s parameter is declared object|array and that is enforced)
@@ -124,24 +129,43 @@ func runScript(ops [][]any) (o Obs) {
 			for i, it := range items {
 				parts[i] = q(it)
 			}
-			fmt.Fprintf(&sb, "$w->json([%s]);\n", strings.Join(parts, ", "))
+			fmt.Fprintf(sb, "%s->json([%s]);\n", v, strings.Join(parts, ", "))
 		case "redirect":
-			fmt.Fprintf(&sb, "$w->redirect(%s, %d);\n", q(str(op[1])), num(op[2]))
+			fmt.Fprintf(sb, "%s->redirect(%s, %d);\n", v, q(str(op[1])), num(op[2]))
+		case "redirect0":
+			fmt.Fprintf(sb, "%s->redirect(%s);\n", v, q(str(op[1])))
 		case "nocontent":
-			fmt.Fprintf(&sb, "$w->noContent(%d);\n", num(op[1]))
+			fmt.Fprintf(sb, "%s->noContent(%d);\n", v, num(op[1]))
+		case "nocontent0":
+			fmt.Fprintf(sb, "%s->noContent();\n", v)
 		case "writeheader":
-			fmt.Fprintf(&sb, "$w->writeHeader(%d);\n", num(op[1]))
+			fmt.Fprintf(sb, "%s->writeHeader(%d);\n", v, num(op[1]))
 		case "htmlwith":
-			fmt.Fprintf(&sb, "$w->html(%s, %d);\n", q(str(op[1])), num(op[2]))
+			fmt.Fprintf(sb, "%s->html(%s, %d);\n", v, q(str(op[1])), num(op[2]))
 		case "formatted":
 			// error(message, code) and success(null, message, code) both reach writeFormattedResponse
 			if num(op[1]) >= 400 {
-				fmt.Fprintf(&sb, "$w->error(%s, %d);\n", q(str(op[2])), num(op[1]))
+				fmt.Fprintf(sb, "%s->error(%s, %d);\n", v, q(str(op[2])), num(op[1]))
 			} else {
-				fmt.Fprintf(&sb, "$w->success(null, %s, %d);\n", q(str(op[2])), num(op[1]))
+				fmt.Fprintf(sb, "%s->success(null, %s, %d);\n", v, q(str(op[2])), num(op[1]))
 			}
+		case "success0":
+			fmt.Fprintf(sb, "%s->success();\n", v)
+		case "error0":
+			fmt.Fprintf(sb, "%s->error();\n", v)
+		case "badstatus":
+			// an out-of-range status code must be refused with a catchable error and have no effect
+			fmt.Fprintf(sb, "try { %s->%s(%d); %s->write(\"NOTREFUSED\"); } catch (\\Throwable $e) { }\n", v, str(op[1]), num(op[2]), v)
 		}
 	}
+}
+
+// script mode: the same ops as calls on $w inside a handler function, served through the real
+// Handler.ServeHTTP (beginResponse + deferred commit)
+func runScript(ops [][]any) (o Obs) {
+	var sb strings.Builder
+	sb.WriteString("function h($r, $w) {\n")
+	opsScript(&sb, "$w", ops)
 	sb.WriteString("}\n")
 	defer func() {
 		if r := recover(); r != nil {
@@ -149,6 +173,8 @@ func runScript(ops [][]any) (o Obs) {
 		}
 	}()
 	vm, p := vrun.NewVM()
+	// an uncaught throw inside a middleware reaches VM.ThrowControl (which would exit the process)
+	vm.SetThrowControl(func(acl data.Control) { panic(acl) })
 	prog, acl := p.ParseString(sb.String(), "c13.zy")
 	if acl != nil {
 		return Obs{Err: "parse: " + acl.AsString()}
@@ -165,6 +191,71 @@ func runScript(ops [][]any) (o Obs) {
 	req := httptest.NewRequest("GET", "/x", nil)
 	hd := ohttp.Handler{Value: fn, Ctx: ctx}
 	hd.ServeHTTP(rec, req)
+	return observe(rec)
+}
+
+// server mode: a script builds a real Server with an optional onError handler, middlewares
+// (priority, ops before $next, ops after $next) and one route whose handler runs ops and
+// optionally throws; one request is served by the real ServeMux. Every layer talks to its own
+// Response object; the recorder counts header commits on the underlying connection.
+type Mw struct {
+	Prio int     `json:"prio"`
+	Pre  [][]any `json:"pre"`
+	Post [][]any `json:"post"`
+}
+
+func runServer(c Case) (o Obs) {
+	var sb strings.Builder
+	sb.WriteString("use Net\\Http\\Server;\n$server = new Server('127.0.0.1', 0);\n")
+	if c.OnError != nil {
+		sb.WriteString("$server->onError(function ($request, $response, $error) {\n")
+		opsScript(&sb, "$response", c.OnError)
+		sb.WriteString("});\n")
+	}
+	for _, m := range c.Mws {
+		sb.WriteString("$server->middleware(function ($request, $response, $next) {\n")
+		opsScript(&sb, "$response", m.Pre)
+		sb.WriteString("$next($request, $response);\n")
+		opsScript(&sb, "$response", m.Post)
+		fmt.Fprintf(&sb, "}, %d);\n", m.Prio)
+	}
+	sb.WriteString("$server->get('/x', function ($req, $res) {\n")
+	opsScript(&sb, "$res", c.Ops)
+	if c.Throw {
+		sb.WriteString("throw new Exception(\"boom\");\n")
+	}
+	sb.WriteString("});\n")
+	defer func() {
+		if r := recover(); r != nil {
+			o.Err = fmt.Sprint(r)
+		}
+	}()
+	vm, p := vrun.NewVM()
+	// an uncaught throw inside a middleware reaches VM.ThrowControl (which would exit the process)
+	vm.SetThrowControl(func(acl data.Control) { panic(acl) })
+	prog, acl := p.ParseString(sb.String(), "c13srv.zy")
+	if acl != nil {
+		return Obs{Err: "parse: " + acl.AsString()}
+	}
+	vars := p.GetVariables()
+	ctx := vm.CreateContext(vars)
+	if _, ctl := prog.GetValue(ctx); ctl != nil {
+		return Obs{Err: "run: " + ctl.AsString()}
+	}
+	var mux http.Handler
+	for _, v := range vars {
+		if v.GetName() == "server" {
+			val, _ := ctx.GetVariableValue(v)
+			if gs, ok := val.(data.GetSource); ok {
+				mux, _ = gs.GetSource().(http.Handler)
+			}
+		}
+	}
+	if mux == nil {
+		return Obs{Err: "no server mux"}
+	}
+	rec := &counting{ResponseRecorder: httptest.NewRecorder()}
+	mux.ServeHTTP(rec, httptest.NewRequest("GET", "/x", nil))
 	return observe(rec)
 }
 
@@ -203,6 +294,8 @@ func runMwScript(prios []int) (o Obs) {
 		}
 	}()
 	vm, p := vrun.NewVM()
+	// an uncaught throw inside a middleware reaches VM.ThrowControl (which would exit the process)
+	vm.SetThrowControl(func(acl data.Control) { panic(acl) })
 	prog, acl := p.ParseString(sb.String(), "c13mw.zy")
 	if acl != nil {
 		return Obs{Err: "parse: " + acl.AsString()}
@@ -256,6 +349,8 @@ func main() {
 		switch {
 		case c.Kind == "mw":
 			enc.Encode(runMw(c.Prios))
+		case c.Kind == "server":
+			enc.Encode(runServer(c))
 		case c.Kind == "mwscript":
 			enc.Encode(runMwScript(c.Prios))
 		case c.Mode == "script":
